@@ -29,6 +29,9 @@ var userKinds = map[string][]string{
 }
 
 type genCfg struct {
+	okPT     bool // PostTransforms never fail
+	cbHeavy  bool // user tests and PostTransforms on (almost) every node
+	easy     bool // few, easily satisfied tests
 	catchPct int // probability (percent) that a primitive has Catch; 0 = default 25
 	maxDepth int
 	noCatch  bool
@@ -44,10 +47,20 @@ func pick[T any](r *rand.Rand, xs []T) T { return xs[r.Intn(len(xs))] }
 
 func genTests(r *rand.Rand, ty string, g genCfg, idp string) []Test {
 	n := pick(r, []int{0, 1, 1, 2, 2, 3})
+	if g.easy {
+		n = pick(r, []int{0, 0, 1})
+	}
+	if g.cbHeavy && n == 0 {
+		n = 1
+	}
+	upct := 40
+	if g.cbHeavy {
+		upct = 85
+	}
 	ts := []Test{}
 	for i := 0; i < n; i++ {
 		t := Test{}
-		if r.Intn(100) < 40 {
+		if r.Intn(100) < upct {
 			t.User = true
 			t.Kind = pick(r, userKinds[ty])
 			t.Code = pick(r, []string{"u1", "u2", "u3"})
@@ -58,6 +71,24 @@ func genTests(r *rand.Rand, ty string, g genCfg, idp string) []Test {
 		t.N = 1 + r.Intn(4)
 		if ty == "bool" {
 			t.N = r.Intn(2)
+		}
+		if g.easy && ty != "bool" {
+			if t.Kind == "gte" || t.Kind == "gt" {
+				t.N = 0
+				if t.Kind == "gt" && ty == "time" {
+					t.N = 0
+				}
+			} else if t.Kind == "lte" || t.Kind == "lt" {
+				t.N = 8
+			} else {
+				t.Kind = "gte"
+				t.Code = builtinCode(ty, "gte")
+				if ty == "time" {
+					t.Kind, t.Code = "gt", "after"
+				}
+				t.N = 0
+				t.User = false
+			}
 		}
 		if !g.noPath && r.Intn(100) < 8 && !(ty == "bool" && !t.User) {
 			ovrCounter++
@@ -73,10 +104,13 @@ func genPTs(r *rand.Rand, g genCfg, allowErr bool) []string {
 		return []string{}
 	}
 	n := pick(r, []int{0, 0, 0, 1, 1, 2, 3})
+	if g.cbHeavy {
+		n = pick(r, []int{1, 1, 2, 3})
+	}
 	ps := []string{}
 	for i := 0; i < n; i++ {
 		k := pick(r, []string{"ok", "ok", "ok", "err", "zerr"})
-		if !allowErr {
+		if !allowErr || g.okPT {
 			k = "ok"
 		}
 		ps = append(ps, k)
@@ -204,6 +238,17 @@ func genStruct(r *rand.Rand, g genCfg, depth int) *Node {
 
 // ---- inputs ----------------------------------------------------------------
 
+// JSON has no integers, times or typed values: numbers arrive as float64, times as strings
+func jsonLeaf(in *Input, ty string) *Input {
+	if in.T == "val" && in.Rep == "nat" && (ty == "int" || ty == "float") {
+		in.Rep = "f64"
+	}
+	if in.T == "val" && in.Rep == "nat" && ty == "time" {
+		in.Rep = "str"
+	}
+	return in
+}
+
 func genLeafFor(r *rand.Rand, ty string) *Input {
 	maxv := 4
 	if ty == "bool" {
@@ -250,8 +295,14 @@ func genLeafFor(r *rand.Rand, ty string) *Input {
 func genParseInput(r *rand.Rand, n *Node, fe string) *Input {
 	switch n.K {
 	case "prim":
+		if fe == "json" {
+			return jsonLeaf(genLeafFor(r, n.Ty), n.Ty)
+		}
 		return genLeafFor(r, n.Ty)
 	case "custom":
+		if fe == "json" {
+			return jsonLeaf(val(r.Intn(5)), "int")
+		}
 		x := r.Intn(100)
 		switch {
 		case x < 60:
@@ -293,6 +344,9 @@ func genParseInput(r *rand.Rand, n *Node, fe string) *Input {
 			if in.T == "missing" || in.T == "nil" || in.T == "blank" || in.T == "empty" || in.T == "list" {
 				if lt == "str" {
 					return val(2)
+				}
+				if fe == "json" {
+					return jsonLeaf(val(1), lt)
 				}
 				return val(1)
 			}
